@@ -18,10 +18,10 @@ TEndT == IsEv("TickEnd") /\ Consume1 /\ TickEnd(Ev.tick)
 TPO == IsEv("ProcsOpen") /\ Consume1 /\ ProcsOpen(Ev.p, SeqToSet(Ev.pids))
 TKill == IsEv("Kill") /\ Consume1 /\ Signal(Ev.pid, Ev.sig)
 TQuery == IsEv("StatQuery") /\ Consume1 /\ Query(Ev.avail)
-\* two accessors answer an EMPTY file with a default instead of "unavailable" (a comment in Fs.cpp says so for
+\* one accessor answers an EMPTY file with a default instead of "unavailable" (a comment in Fs.cpp says so for
 \* cgroup.stat): accepted here so that the rest of the execution is still validated; chk_tick.py reports each as a
 \* known finding, and as a violation if known_findings.txt does not list it
-EmptyDefaults == {<<"cgroup.stat", "nr_dying_descendants">>, <<"memory.oom.group", "oom_group">>}
+EmptyDefaults == {<<"cgroup.stat", "nr_dying_descendants">>}
 TQueryDefault == /\ IsEv("StatQuery") /\ Consume1 /\ Ev.avail /\ Ev.kind = "empty" /\ <<Ev.file, Ev.field>> \in EmptyDefaults
                  /\ Query(FALSE)
 \* an execution is complete only after both ticks
